@@ -1,6 +1,7 @@
 """C06 - upgrade handshake."""
 FUNCTIONS = ['socket.Socket._websocket_handler', 'socket.Socket._upgrade_websocket',
              'socket.Socket.handle_get_request']
+FUNCTIONS += ['server.Server.handle_request', 'server.Server._handle_connect']
 
 LEVEL_TEXT = "_websocket_handler / _upgrade_websocket / handle_get_request (threaded) are verified over a ghost frame log: the session is upgraded only if the new frames start with in PING 'probe', out PONG 'probe', in UPGRADE; every other outcome (wrong frame, oversize, undecodable, driver error, closure) leaves upgrading reset, nothing taken from the queue, queue content preserved, no event; an upgraded session refuses another upgrade with OSError and no effect; a WebSocket open is in WebSocket mode at once"
 LEVEL_NOTE = 'WebSocket driver wrapper contract (calls the handler once; wait/send may raise); one upgrade socket per session at a time (precondition); socket time-out tuning on driver internals is an abstract region; asyncio twin verified by the same contracts where listed'
